@@ -323,6 +323,11 @@ namespace igris
 
         int linecpy(char *data, size_t size)
         {
+            // no room even for the terminator: nothing can be written
+            // (len would be -1: memcpy of SIZE_MAX bytes)
+            if (size == 0)
+                return 0;
+
             int len = (int)size - 1 > (int)_line.current_size()
                           ? (int)_line.current_size()
                           : (int)size - 1;
